@@ -275,6 +275,7 @@ pub fn run_phase(ph: &Phase, cfg: &Config) -> PhaseReport {
     type Known = BTreeMap<&'static str, (u64, Value)>;
     let merged: Mutex<(Stats, Option<(usize, Violation)>, Known)> =
         Mutex::new((Stats { classes: vec![0; ph.classes.len()], ..Default::default() }, None, BTreeMap::new()));
+    let suspects: Mutex<Option<(usize, Violation)>> = Mutex::new(None);
     let nthreads = cfg.threads.max(1).min(items.len().max(1));
     let sample_item = if !items.is_empty() { (cfg.seed as usize).wrapping_mul(2654435761) % items.len() } else { 0 };
     std::thread::scope(|s| {
@@ -282,6 +283,8 @@ pub fn run_phase(ph: &Phase, cfg: &Config) -> PhaseReport {
             s.spawn(|| {
                 let mut st = Stats { classes: vec![0; ph.classes.len()], ..Default::default() };
                 let mut viol: Option<(usize, Violation)> = None;
+                let mut suspect: Option<(usize, Violation)> = None;
+                let mut suspects_checked = 0;
                 let mut known: Known = BTreeMap::new();
                 loop {
                     let it = next.fetch_add(1, Ordering::SeqCst);
@@ -330,9 +333,26 @@ pub fn run_phase(ph: &Phase, cfg: &Config) -> PhaseReport {
                                 let e = known.entry(k).or_insert((0, json!({"what": f.what, "detail": f.detail, "unit": unit, "choices": cx.choices()})));
                                 e.0 += 1;
                             } else {
-                                min_bad.fetch_min(it, Ordering::SeqCst);
-                                viol = Some((it, Violation { phase: ph.name, unit, choices: cx.choices(), fail: f, preceded_by: None }));
-                                break;
+                                // does the same execution fail when run alone in a fresh thread? if not, it depends on the calls made
+                                // before it (hidden state): remember it as a suspect and keep exploring; the call-order pass below
+                                // re-derives it as a deterministic two-call sequence
+                                let ch = cx.choices();
+                                let alone_ok = suspects_checked < 4 && {
+                                    suspects_checked += 1;
+                                    std::thread::scope(|s2| s2.spawn(|| run_single_q(ph, unit, &ch, cfg.thorough, cfg.seed).0.is_ok()).join().unwrap_or(false))
+                                };
+                                if alone_ok {
+                                    let mut f = f;
+                                    f.what = format!("{} [history-dependent: the same execution alone in a fresh thread satisfies the property]", f.what);
+                                    st.reps.push((unit, ch.clone()));
+                                    if suspect.as_ref().map_or(true, |(i0, _)| it < *i0) {
+                                        suspect = Some((it, Violation { phase: ph.name, unit, choices: ch, fail: f, preceded_by: None }));
+                                    }
+                                } else {
+                                    min_bad.fetch_min(it, Ordering::SeqCst);
+                                    viol = Some((it, Violation { phase: ph.name, unit, choices: ch, fail: f, preceded_by: None }));
+                                    break;
+                                }
                             }
                         }
                         if !advance(&mut cx, floor) {
@@ -386,6 +406,13 @@ pub fn run_phase(ph: &Phase, cfg: &Config) -> PhaseReport {
                     let e = g.2.entry(k).or_insert((0, ex));
                     e.0 += n;
                 }
+                drop(g);
+                if let Some(sv) = suspect {
+                    let mut sg = suspects.lock().unwrap();
+                    if sg.as_ref().map_or(true, |o| sv.0 < o.0) {
+                        *sg = Some(sv);
+                    }
+                }
             });
         }
     });
@@ -400,21 +427,10 @@ pub fn run_phase(ph: &Phase, cfg: &Config) -> PhaseReport {
     // call before them: a result that depends on it (thread-local scratch, memo, cache) shows up as a violation of j.
     let mut order_reps = 0usize;
     let mut order_pairs = 0u64;
-    // a main-pass violation that does not reproduce when the same execution is run alone in a fresh thread depends on the
-    // calls made before it (hidden state): label it, and let the call-order pass below re-derive it as a deterministic pair
-    let mut history_dependent = false;
-    if let Some((_, v)) = &violation {
-        let alone = std::thread::scope(|s| s.spawn(|| run_single_q(ph, v.unit, &v.choices, cfg.thorough, cfg.seed).0.is_ok()).join().unwrap_or(false));
-        history_dependent = alone;
-    }
-    if history_dependent {
-        if let Some((_, v)) = violation.as_mut() {
-            v.fail.what = format!("{} [history-dependent: the same execution alone in a fresh thread satisfies the property]", v.fail.what);
-            stats.reps.push((v.unit, v.choices.clone()));
-        }
-    }
+    let suspect = suspects.into_inner().unwrap();
+    let history_dependent = violation.is_none() && suspect.is_some();
     if (violation.is_none() || history_dependent) && !capped && cfg.order_reps > 0 {
-        let must_keep = violation.as_ref().map(|(_, v)| (v.unit, v.choices.clone()));
+        let must_keep = suspect.as_ref().map(|(_, v)| (v.unit, v.choices.clone()));
         let mut reps = std::mem::take(&mut stats.reps);
         reps.sort();
         reps.dedup();
@@ -437,12 +453,24 @@ pub fn run_phase(ph: &Phase, cfg: &Config) -> PhaseReport {
             for _ in 0..cfg.threads.max(1).min(picked.len().max(1)) {
                 s.spawn(|| loop {
                     let i = nexti.fetch_add(1, Ordering::SeqCst);
-                    if i >= picked.len() || found.lock().unwrap().is_some() {
+                    // rows are handed out in increasing order: a row beyond the best failing row so far cannot improve on it
+                    if i >= picked.len() || found.lock().unwrap().as_ref().map_or(false, |(k, _)| i > *k / picked.len()) {
                         break;
                     }
                     for j in 0..picked.len() {
-                        let (_v1, _) = run_single_q(ph, picked[i].0, &picked[i].1, cfg.thorough, cfg.seed);
-                        let (v2, _) = run_single_q(ph, picked[j].0, &picked[j].1, cfg.thorough, cfg.seed);
+                        // each two-call sequence runs in a thread of its own, so that thread-local state left behind by earlier
+                        // sequences cannot leak into it and the pair (i, j) is self-contained (replayable)
+                        let v2 = std::thread::scope(|s2| {
+                            std::thread::Builder::new()
+                                .stack_size(1 << 19)
+                                .spawn_scoped(s2, || {
+                                    let _ = run_single_q(ph, picked[i].0, &picked[i].1, cfg.thorough, cfg.seed);
+                                    run_single_q(ph, picked[j].0, &picked[j].1, cfg.thorough, cfg.seed).0
+                                })
+                                .expect("spawn")
+                                .join()
+                                .unwrap_or_else(|_| Err(Fail::new("harness thread panicked in the call-order pass", Value::Null)))
+                        });
                         pairs.fetch_add(1, Ordering::Relaxed);
                         if let Err(f) = v2 {
                             let is_known = f.finding.map_or(false, |k| cfg.known.iter().any(|x| x == k));
@@ -465,6 +493,10 @@ pub fn run_phase(ph: &Phase, cfg: &Config) -> PhaseReport {
         if let Some((_, v)) = found.into_inner().unwrap() {
             violation = Some((usize::MAX, v));
         }
+    }
+    if violation.is_none() {
+        // a suspect that the call-order pass could not re-derive is still a real observation
+        violation = suspect;
     }
     PhaseReport {
         name: ph.name,
@@ -564,7 +596,7 @@ pub fn run_check(chk: Check, thorough: bool, seed: u64, extra_violation: Option<
         threads: std::env::var("VERIF_THREADS").ok().and_then(|s| s.parse().ok()).unwrap_or(16),
         cap_s: std::env::var("VERIF_CAP_S").ok().and_then(|s| s.parse().ok()).unwrap_or(if thorough { 3000.0 } else { 600.0 }),
         known: known_keys,
-        order_reps: std::env::var("VERIF_ORDER_REPS").ok().and_then(|s| s.parse().ok()).unwrap_or(if thorough { 320 } else { 128 }),
+        order_reps: std::env::var("VERIF_ORDER_REPS").ok().and_then(|s| s.parse().ok()).unwrap_or(if thorough { 192 } else { 64 }),
     };
     let mut reports = vec![];
     for ph in &chk.phases {
@@ -745,7 +777,12 @@ pub fn replay(chk: &Check, file: &str) -> i32 {
         Ok(()) => "held".to_string(),
         Err(f) => format!("{} {}", f.what, f.detail),
     };
-    if d(&r1) != d(&r2) || t1 != t2 {
+    if pre.is_some() {
+        // a two-call sequence exposes hidden state, whose stale contents may differ from run to run: only the verdict must agree
+        if r1.is_err() != r2.is_err() {
+            machinery("replay: two runs of the same two-call sequence disagree on the verdict");
+        }
+    } else if d(&r1) != d(&r2) || t1 != t2 {
         machinery("replay: two runs of the same execution differ (nondeterminism)");
     }
     match r1 {
